@@ -15,7 +15,7 @@ from sx import rt
 from sx.core import ctx
 from sx.terms import PChar
 
-BOUNDS = {"quick": {"countries": "one per distinct table signature", "positions": "first, last, both sides of every token boundary, 1 seeded interior position per token; substitution and adjacent transposition"},
+BOUNDS = {"quick": {"countries": "one per distinct table signature", "positions": "first, last, both sides of every token boundary, 1 seeded interior position per token; substitution and adjacent transposition (the check-digit/BBAN boundary swap of digit-or-letter structures for a seeded third of them)"},
           "thorough": {"countries": "all", "positions": "every position >= 2 for structures without digit-or-letter tokens; for the others token boundaries, first/last and 3 seeded interior positions per token (each position is case-split over the expanded width of what follows); substitution and adjacent transposition"}}
 STUBS = ["as C01"]
 ASSUMPTIONS = ["kind-changing errors are outside the statement (rejected by the class check: C01)"]
@@ -46,8 +46,12 @@ def jobs(tier, seed):
     out = []
     for cc in H.country_jobs(tier, seed):
         ps = positions_for(cc, tier, seed)
+        heavy = "c" in table.classes(cc)  # boundary swap with symbolic widths: minutes per job
+        rnd = random.Random(f"{seed}-heavy-{cc}")
         for j in ps:
             out.append({"cc": cc, "j": j, "kind": "sub"})
+            if j == 1 and heavy and tier != "thorough" and rnd.random() > 0.34:
+                continue
             out.append({"cc": cc, "j": j, "kind": "swap"})
     return out
 
